@@ -14,6 +14,7 @@ import (
 	"os"
 	"strings"
 	"sync"
+	"sync/atomic"
 	"time"
 
 	"github.com/absfs/absfs"
@@ -65,7 +66,14 @@ func vfQuiet(n *AbsfsNFS) {
 	}
 }
 
+// vfStuckSeen is set once a request was found structurally stuck (see rawCall): shutting such a
+// server down would wait for the stuck request for ever, so it is abandoned instead.
+var vfStuckSeen atomic.Bool
+
 func (s *vfSrv) Close() {
+	if vfStuckSeen.Load() {
+		return
+	}
 	s.nfs.Close()
 }
 
@@ -205,7 +213,8 @@ func (c *vfClient) rawCall(prog, vers, proc uint32, args []byte) (uint32, []byte
 				second := vfC29LockWaiters()
 				for id, st := range second {
 					if _, was := first[id]; was {
-						return xid, nil, fmt.Errorf("HandleCall: %w - the request is stuck: a handler goroutine has been waiting for a lock in two goroutine dumps 2 s apart (deadlock or a lock never released): %s", err, strings.SplitN(st, "\n", 6)[min64i(4, len(strings.SplitN(st, "\n", 6))-1)])
+						vfStuckSeen.Store(true)
+						return xid, nil, fmt.Errorf("HandleCall: %w - "+evid.StuckMarker+": a handler goroutine has been waiting for a lock in two goroutine dumps 2 s apart (deadlock or a lock never released): %s", err, strings.SplitN(st, "\n", 6)[min64i(4, len(strings.SplitN(st, "\n", 6))-1)])
 					}
 				}
 			}
